@@ -22,7 +22,7 @@ typedef struct svalue_s			svalue_t;
 typedef struct userid_s			userid_t;
 
 typedef struct {
-    unsigned short ref;
+    unsigned int ref;
 } refed_t;
 
 union svalue_u {
